@@ -113,5 +113,27 @@ def snapshot(path='.'):
     return out
 
 
+class time_limit:
+    """with time_limit(s): ...  raises TimeoutError in the main thread after s seconds (an implementation that
+    loops for ever must yield data, not hang the harness)"""
+
+    def __init__(self, seconds):
+        self.seconds = seconds
+
+    def _raise(self, *a):
+        raise TimeoutError(f'no answer after {self.seconds} s')
+
+    def __enter__(self):
+        import signal
+        self.old = signal.signal(signal.SIGALRM, self._raise)
+        signal.setitimer(signal.ITIMER_REAL, self.seconds)
+
+    def __exit__(self, *a):
+        import signal
+        signal.setitimer(signal.ITIMER_REAL, 0)
+        signal.signal(signal.SIGALRM, self.old)
+        return False
+
+
 def exc_info(e):
     return {'exc': type(e).__name__, 'msg': str(e)[:300]}
